@@ -18,6 +18,26 @@ import (
 
 func init() { checks["C28"] = checkC28 }
 
+// plainWriter hides every method of its sink except Write (no io.StringWriter, no ReadFrom).
+type plainWriter struct{ w io.Writer }
+
+func (p plainWriter) Write(b []byte) (int, error) { return p.w.Write(b) }
+
+// encodeCTEPlain: like encodeCTE, into a sink that is only an io.Writer.
+func encodeCTEPlain(evs []AEv, cfg *configuration.Configuration) (doc []byte, rejectedAt int, perr interface{}) {
+	var buf bytes.Buffer
+	enc := cte.NewEncoder(cfg)
+	enc.PrepareToEncode(plainWriter{&buf})
+	r := rules.NewRules(enc, cfg)
+	vb := &volatileBuf{}
+	for i, e := range evs {
+		if ok, p := tryInvokeV(r, e, vb); !ok {
+			return buf.Bytes(), i, p
+		}
+	}
+	return buf.Bytes(), -1, nil
+}
+
 func encodeCTE(evs []AEv, cfg *configuration.Configuration) (doc []byte, rejectedAt int, perr interface{}) {
 	var buf bytes.Buffer
 	enc := cte.NewEncoder(cfg)
